@@ -240,7 +240,9 @@ Inductive event :=
 
 Record request := {
   q_scion : bool;
-  q_server : Z;              (* remoteAddr (host) as an unmapped address *)
+  q_server : Z;              (* remoteAddr (host) as an unmapped address: the address this exchange queries, i.e. the
+                                one the key exchange named if NTS is on, else the one the caller passed *)
+  q_port : Z;                (* remoteAddr.Port: part of the reference of the server, not of the source check *)
   q_server_ia : Z; q_local_ia : Z; q_local : Z;    (* SCION only *)
   q_authkey : bool;          (* SCION only: authKey != nil *)
   q_bufcap : nat;            (* cap(buf) of the receive buffer *)
@@ -439,18 +441,20 @@ Section Client.
     c_scion : bool;
     c_imode : bool;            (* InterleavedMode *)
     c_nts : bool;              (* Auth.Enabled (IP) / Auth.NTSEnabled (SCION) *)
-    c_server : Z; c_server_ia : Z; c_local_ia : Z; c_local : Z;
+    c_server : Z;              (* the remote address the client is configured with (the exchanges query e_server) *)
+    c_server_ia : Z; c_local_ia : Z; c_local : Z;
     c_deadline : bool
   }.
 
   (* c.prev *)
   Record cstate := {
-    s_has : bool;              (* prev.reference == reference of this server *)
+    s_has : bool;              (* prev.reference != "" *)
+    s_host : Z; s_port : Z;    (* prev.reference: the server (host, port; over SCION the ISD-AS is fixed) the state was recorded for *)
     s_il : bool;               (* prev.interleaved *)
     s_ctx : time64; s_crx : time64; s_srx : time64
   }.
   Definition cstate0 : cstate :=
-    {| s_has := false; s_il := false;
+    {| s_has := false; s_host := 0; s_port := 0; s_il := false;
        s_ctx := {| t64_sec := 0; t64_frac := 0 |}; s_crx := {| t64_sec := 0; t64_frac := 0 |};
        s_srx := {| t64_sec := 0; t64_frac := 0 |} |}.
 
@@ -461,40 +465,44 @@ Section Client.
     e_uid : bytes;             (* the 32 random bytes of newID *)
     e_s2c : bytes;             (* ntskeData.S2cKey *)
     e_authkey : bool;          (* SCION: DRKey fetched *)
+    e_server : Z; e_port : Z;  (* remoteAddr of this exchange: what the caller passed or, with NTS, what the key
+                                  exchange in force names (ntskeData.Server, ntskeData.Port) *)
     e_evs : list event
   }.
 
   Definition three_seconds : Z := 3000000000.
   Definition zero64 : time64 := {| t64_sec := 0; t64_frac := 0 |}.
 
-  (* interleavedReq: IP client "<= 3 s", SCION client "< 3 s" *)
-  Definition want_interleaved (c : config) (st : cstate) (ref : Z) : bool :=
-    c_imode c && s_has st &&
+  (* interleavedReq: c.InterleavedMode && reference == c.prev.reference && the previous request is at most
+     (IP client "<= 3 s", SCION client "< 3 s") old *)
+  Definition want_interleaved (c : config) (st : cstate) (e : xenv) : bool :=
+    let ref := e_ref e in
+    c_imode c && s_has st && (s_host st =? e_server e) && (s_port st =? e_port e) &&
     (let gap := time_sub ref (time_of_time64 (s_ctx st) ref) in
      if c_scion c then gap <? three_seconds else gap <=? three_seconds).
 
   (* the three timestamp fields of the request on the wire *)
-  Definition wire_org (c : config) (st : cstate) (ref : Z) : time64 :=
-    if want_interleaved c st ref then s_srx st else zero64.
-  Definition wire_rx (c : config) (st : cstate) (ref : Z) : time64 :=
-    if want_interleaved c st ref then s_crx st else zero64.
-  Definition wire_tx (c : config) (st : cstate) (ref : Z) : time64 :=
-    if want_interleaved c st ref then s_ctx st else time64_of_time ref.
+  Definition wire_org (c : config) (st : cstate) (e : xenv) : time64 :=
+    if want_interleaved c st e then s_srx st else zero64.
+  Definition wire_rx (c : config) (st : cstate) (e : xenv) : time64 :=
+    if want_interleaved c st e then s_crx st else zero64.
+  Definition wire_tx (c : config) (st : cstate) (e : xenv) : time64 :=
+    if want_interleaved c st e then s_ctx st else time64_of_time (e_ref e).
 
   Definition make_request (c : config) (st : cstate) (e : xenv) : request :=
-    {| q_scion := c_scion c; q_server := c_server c; q_server_ia := c_server_ia c;
+    {| q_scion := c_scion c; q_server := e_server e; q_port := e_port e; q_server_ia := c_server_ia c;
        q_local_ia := c_local_ia c; q_local := c_local c; q_authkey := e_authkey e;
        q_bufcap := Z.to_nat (if c_scion c then 9188 else if c_nts c then 1024 else 48);
        q_deadline := c_deadline c; q_nts := c_nts c; q_uid := e_uid e; q_s2c := e_s2c e;
-       q_ireq := want_interleaved c st (e_ref e);
-       q_rx := wire_rx c st (e_ref e); q_tx := wire_tx c st (e_ref e);
+       q_ireq := want_interleaved c st e;
+       q_rx := wire_rx c st e; q_tx := wire_tx c st e;
        q_ref := e_ref e; q_ctx1 := e_ctx1 e;
        q_pctx := s_ctx st; q_psrx := s_srx st; q_pcrx := s_crx st |}.
 
   (* if c.InterleavedMode { c.prev... = ... } *)
   Definition update (c : config) (st : cstate) (e : xenv) (r : result) : cstate :=
     if c_imode c then
-      {| s_has := true; s_il := r_ileaved r;
+      {| s_has := true; s_host := e_server e; s_port := e_port e; s_il := r_ileaved r;
          s_ctx := time64_of_time (e_ctx1 e); s_crx := time64_of_time (r_crx r); s_srx := r_srx r |}
     else st.
 
@@ -538,7 +546,7 @@ Section Client.
 
   (* ResetInterleavedMode: c.prev.reference = "" *)
   Definition reset_state (st : cstate) : cstate :=
-    {| s_has := false; s_il := s_il st; s_ctx := s_ctx st; s_crx := s_crx st; s_srx := s_srx st |}.
+    {| s_has := false; s_host := s_host st; s_port := s_port st; s_il := s_il st; s_ctx := s_ctx st; s_crx := s_crx st; s_srx := s_srx st |}.
 
   (* MeasureClockOffsetSCION with one client and one path: the measurement is
      stored only if its Error is nil; n = collectMeasurements(...); n == 0 is
@@ -596,8 +604,9 @@ Record oreq := {
   oq_nts : bool;
   oq_ireq : bool;            (* the outstanding request is an interleaved one *)
   oq_rx : time64; oq_tx : time64;   (* its receive and transmit timestamp fields, which a response may echo *)
-  oq_prev : list time64;     (* the receive timestamp field of the datagram on which the LAST SUCCESSFUL measurement of
-                                this client was based (C05_basis; a list because several delivered datagrams may
+  oq_sid : Z;                (* identifies the server this exchange queries (host and port) *)
+  oq_prev : list (Z * time64); (* the server queried in, and the receive timestamp field of the datagram that was the
+                                basis of, the LAST SUCCESSFUL measurement of this client (C05_basis; a list because several delivered datagrams may
                                 qualify; empty before the first success).  Not taken from the request: what the
                                 request quotes as origin is the client's own bookkeeping *)
   oq_ref : Z                 (* any time within 2^31 s of the exchange: resolves the NTP era *)
@@ -624,9 +633,10 @@ Definition o_clauses (q : oreq) (d : oview) (t1 t2 : Z) : bool :=
   (t2 =? time_of_time64 (o_t64 b 40) (oq_ref q)) &&
   (* the reported server receive time is the datagram's, or, for an interleaved
      response, that of the datagram the previous successful measurement was based
-     on: never a timestamp of a datagram that was skipped or rejected *)
+     on, which was a measurement of the same server: never a timestamp of a
+     datagram that was skipped or rejected, or of another server's *)
   ((t1 =? time_of_time64 (o_t64 b 32) (oq_ref q)) ||
-   (inter && existsb (fun p => t1 =? time_of_time64 p (oq_ref q)) (oq_prev q))) &&
+   (inter && existsb (fun p => (fst p =? oq_sid q) && (t1 =? time_of_time64 (snd p) (oq_ref q))) (oq_prev q))) &&
   (* transmit time not before the receive time it is combined with *)
   (t1 <=? t2).
 
@@ -651,17 +661,17 @@ Definition C05_ok (q : oreq) (ds : list oview) (o : oobs) : bool :=
    of the last successful measurement stays what it was; after a success it is
    the receive timestamp field of the delivered datagram(s) that meet the
    clauses for the reported (t1, t2) *)
-Definition C05_basis (q : oreq) (ds : list oview) (o : oobs) : list time64 :=
+Definition C05_basis (q : oreq) (ds : list oview) (o : oobs) : list (Z * time64) :=
   match o with
   | ObsError => oq_prev q
   | ObsOffset t0 t1 t2 t3 off =>
-      map (fun d => o_t64 (o_payload d) 32) (filter (fun d => o_clauses q d t1 t2) ds)
+      map (fun d => (oq_sid q, o_t64 (o_payload d) 32)) (filter (fun d => o_clauses q d t1 t2) ds)
   end.
 
 (* a sequence of exchanges of one client, each with the request that was
    outstanding (without oq_prev: the oracle supplies it), the delivered
    datagrams and what the client reported *)
-Fixpoint C05_run (prev : list time64) (xs : list ((list time64 -> oreq) * list oview * oobs)) : bool :=
+Fixpoint C05_run (prev : list (Z * time64)) (xs : list ((list (Z * time64) -> oreq) * list oview * oobs)) : bool :=
   match xs with
   | [] => true
   | (mk, ds, o) :: rest => C05_ok (mk prev) ds o && C05_run (C05_basis (mk prev) ds o) rest
